@@ -284,7 +284,7 @@ def run(ctx, report: Report) -> None:
                              f'{spelled} builds nth records {rec}; the An+B instance it names is {exp} (a, n, b, of_type, last)')
 
     # ---- R4 ---------------------------------------------------------------------------------------------------
-    r4 = report.rule('C02-R4', '-of-type equality = name AND namespace; every SelectorNth field is read', floor=29)
+    r4 = report.rule('C02-R4', '-of-type equality = name AND namespace; every SelectorNth field is read', floor=28)
     from .sem import same_type_table
     same_type_table(ctx, r4)
     # the siblings that are counted are the children of the real parent, whatever the document kind
